@@ -407,6 +407,48 @@ def _perms(tier, n):
     return allp
 
 
+def h_broadcast(ctx):
+    """query easting and northing of different but broadcastable shapes: the prediction has their broadcast shape and,
+    cell by cell, the value predicted for the fully expanded query arrays"""
+    kind = ctx.cfg["kind"]
+    stubs.reset_logs()
+    stubs.SCALE_CONTRACT["exact"] = False
+    e = np.array([p[0] for p in LAYOUT4])
+    n = np.array([p[1] for p in LAYOUT4])
+    d, dd = ctx.reals("d", 4), ctx.reals("dd", 4)
+    with warnings.catch_warnings():
+        warnings.simplefilter("ignore")
+        if kind == "trend":
+            est = vd.Trend(1).fit((e, n), d)
+        elif kind == "spline":
+            est = vd.Spline().fit((e, n), d)
+        elif kind == "vector":
+            est = vd.VectorSpline2D(mindist=1.0).fit((e, n), (d, dd))
+        elif kind == "kneighbors":
+            est = vd.KNeighbors(k=1).fit((e, n), d)
+        else:
+            est = vd.Linear().fit((e, n), d)
+        row = np.array([[0.4, 1.1, 1.9]])  # (1, 3) eastings
+        col = np.array([[0.9], [0.3]])  # (2, 1) northings
+        full_e, full_n = np.broadcast_arrays(row, col)
+        full_e, full_n = full_e.copy(), full_n.copy()
+        for label, q, qfull, want in (
+            ("(1,3) easting with (2,1) northing", (row, col), (full_e, full_n), (2, 3)),
+            ("scalar easting with (2,1) northing", (0.4, col), (np.full((2, 1), 0.4), col), (2, 1)),
+            ("(3,) easting with scalar northing", (row[0], 0.9), (row[0], np.full(3, 0.9)), (3,)),
+        ):
+            ref = est.predict(qfull)
+            got = est.predict(q)
+            refs = list(ref) if isinstance(ref, tuple) else [ref]
+            gots = list(got) if isinstance(got, tuple) else [got]
+            ok = len(gots) == len(refs) and all(np.shape(g) == want for g in gots)
+            ctx.claim("prediction has the broadcast shape of the query easting/northing: %s" % label, ok)
+            if ok:
+                for g, r in zip(gots, refs):
+                    both_nan = lambda u, v: (not E.is_sym(u)) and (not E.is_sym(v)) and u != u and v != v  # outside Linear's hull
+                    ctx.claim("broadcast query predicts, cell by cell, what the expanded query arrays predict", And([True if both_nan(u, v) else eq(u, v) for u, v in zip(np.ravel(g), np.ravel(r))]))
+
+
 def _cfg_layout(tier, seed):
     return [{"kind": k, "extra": x} for k in ("trend", "spline", "vector", "kneighbors", "linear") for x in ((False, True) if tier == "thorough" or k in ("trend", "linear") else (True,))]
 
@@ -417,6 +459,7 @@ def _cfg_perm(tier, seed):
 
 HARNESSES = [
     Harness("layout", h_layout, _cfg_layout, bounds="4 symbolic elements per array presented as 1-D, 2x2 C-order, 2x2 Fortran-order, strided view of a longer array, pandas Series, with/without an ignored extra coordinate; query arrays of shape (1,3) and scalars; Trend with symbolic coordinates, the others on a concrete 4-point layout", stubs=["least_squares -> recorder with fixed result symbols", "cKDTree / scipy interpolators -> contract stubs"], extra_globals=_globals, engine={"oneshot": True}),
+    Harness("broadcast_query", h_broadcast, lambda tier, seed: [{"kind": k} for k in ("trend", "spline", "vector", "kneighbors", "linear")], bounds="concrete 4-point layout, symbolic data; query pairs (1,3)x(2,1), scalar x (2,1), (3,) x scalar against the same queries expanded to equal shapes", stubs=["sklearn / cKDTree / scipy interpolators -> contract stubs"], extra_globals=_globals, engine={"oneshot": True}),
     Harness("permutation", h_permutation, _cfg_perm, bounds="concrete 4-point layout, symbolic data; 3 permutations (quick) / all 23 (thorough); Spline, VectorSpline2D, Trend, KNeighbors(mean, k=2/3, symbolic query in general position), Linear (pairing only)", stubs=["sklearn -> contracts", "cKDTree / interpolators -> contract stubs"], extra_globals=_globals, engine={"oneshot": True}, timeout_s=900),
     Harness("linearity", h_linearity, lambda tier, seed: [{"kind": k} for k in ("spline", "trend", "kneighbors", "vector")], bounds="concrete 4-point layout; symbolic scalars a, b and data vectors (written as J g + residual so that every data vector is covered)", stubs=["sklearn -> contracts", "cKDTree -> contract stub"], extra_globals=_globals, engine={"oneshot": True, "timeout_ms": 120000}, outside="Cubic (not linear); Linear's linearity is scipy's (OUT-LIB)", timeout_s=900),
     Harness("integer_dtype", h_dtype, lambda tier, seed: [{"kind": k, "npts": 3 if (tier == "thorough" or not k.endswith("e_predict") and k != "vector_predict") else 2} for k in ("trend_predict", "trend_fit", "spline_predict", "vector_predict", "kneighbors")], bounds="3 points with symbolic integer coordinates/data in -50..50 carried by a modelled int64 dtype versus the same values as float64; symbolic parameters", stubs=["numpy dtype/casting model for np.empty/np.zeros(dtype=<input>.dtype) buffers (OUT-DTYPE)"], extra_globals=_globals, engine={"oneshot": True, "keyed_sqrt": True}),
